@@ -21,7 +21,8 @@ def hellinger(x, y):
     elif l1_norm_x == 0 or l1_norm_y == 0:
         return 1.0
     else:
-        return np.sqrt(1 - result / np.sqrt(l1_norm_x * l1_norm_y))
+        # rounding can push the Bhattacharyya coefficient slightly above 1
+        return np.sqrt(max(1 - result / np.sqrt(l1_norm_x * l1_norm_y), 0.0))
 
 
 @numba.njit()
